@@ -17,6 +17,7 @@ import (
 	"github.com/feichai0017/NoKV/manifest"
 	"github.com/feichai0017/NoKV/pb"
 	"github.com/feichai0017/NoKV/utils"
+	"github.com/feichai0017/NoKV/utils/verifhook"
 )
 
 type compactDef struct {
@@ -460,6 +461,7 @@ func (lm *levelManager) runCompactDef(id, l int, cd compactDef) (err error) {
 			err = decErr
 		}
 	}()
+	verifhook.Point("lsm.compact.tablesBuilt")
 	changeSet := buildChangeSet(&cd, newTables)
 
 	// Update the manifest.
@@ -505,6 +507,7 @@ func (lm *levelManager) runCompactDef(id, l int, cd compactDef) (err error) {
 		return err
 	}
 	cleanupNeeded = false
+	verifhook.Point("lsm.compact.manifestLogged")
 
 	if cd.plan.IngestMode == compact.IngestKeep {
 		if err := thisLevel.replaceIngestTables(cd.top, newTables); err != nil {
@@ -530,6 +533,7 @@ func (lm *levelManager) runCompactDef(id, l int, cd compactDef) (err error) {
 		}
 	}
 
+	verifhook.Point("lsm.compact.installed")
 	from := append(tablesToString(cd.top), tablesToString(cd.bot)...)
 	to := tablesToString(newTables)
 	if dur := time.Since(timeStart); dur > 2*time.Second {
@@ -820,6 +824,7 @@ func (lm *levelManager) moveToIngest(cd *compactDef) error {
 		return err
 	}
 
+	verifhook.Point("lsm.ingest.manifestLogged")
 	toDel := make(map[uint64]struct{}, len(cd.top))
 	for _, tbl := range cd.top {
 		if tbl == nil {
